@@ -18,7 +18,7 @@ META = {
             "none/velocity the first NUL-part equals the first NUL-part of the client's own handshake address; in "
             "modes legacy/bungeeguard exactly backendAddr NUL playerIP NUL undashed-UUID NUL JSON whose Gson-style "
             "parse is the player's property list (+ optional Forge extraData marker, + bungeeguard-token). TLC "
-            "enumerates 17 address shapes (Forge FML/FML2/FML3/FORGE markers, TCPShield, IPv6 literal, host with "
+            "enumerates 24 address shapes (Forge FML/FML2/FML3/FORGE markers, hosts that themselves begin with a marker string, TCPShield, IPv6 literal, host with "
             "port, unknown parts, empty host) x 7 client protocols x 4 modes x 9 property lists (quotes, "
             "backslashes, NUL, non-ASCII, HTML, 1.2 kB, nil list) x hooks (none / ServerInfo HandshakeAddresser / "
             "Proxy.SetBackendHandshakeAddresser); each is a real login through the live proxy from its own source "
